@@ -47,7 +47,66 @@ func c05Scopes(strategy string) (registered []string, grantable [][]string) {
 		[][]string{{"offline", "photos", "fosite"}, {"offline_access", "photos", "docs"}, {"photos"}, {"offline", "fosite"}, {"fosite", "docs"}}
 }
 
+// c05StaleIssuance: a refresh token is issued only to a client that IS registered for the refresh_token grant. Between the
+// authorization (or the device authorization) and the exchange the registration loses that grant, edited in place or - how an
+// admin API does it - by replacing the client record, after which the request stored with the code still carries the old object.
+func c05StaleIssuance(c *run.Ctx) {
+	if !c.Mine(4) && c.NShards > 4 {
+		return
+	}
+	grants := []string{"authorization_code", "implicit", "urn:ietf:params:oauth:grant-type:device_code", "refresh_token"}
+	for _, origin := range []string{"code", "hybrid", "device"} {
+		for _, replace := range []bool{false, true} {
+			for _, db := range []bool{false, true} {
+				w := world.New(world.Opts{Mode: world.Mode{DB: db}})
+				sp := world.ClientSpec{ID: "c5-stale", Secret: "s5s", RedirectURIs: []string{"https://c5s.example/cb"}, GrantTypes: grants, ResponseTypes: world.AllResponseTypes, Scopes: []string{"openid", "offline", "fosite"}}
+				w.AddClient(sp)
+				a := world.Basic("c5-stale", "s5s")
+				var form url.Values
+				switch origin {
+				case "code", "hybrid":
+					rt, scope := "code", "offline fosite"
+					if origin == "hybrid" {
+						rt, scope = "code id_token", "openid offline fosite"
+					}
+					az := w.Authorize(url.Values{"client_id": {"c5-stale"}, "response_type": {rt}, "scope": {scope}, "state": {"state-0123456789"}, "nonce": {"nonce-0123456789"}, "redirect_uri": {"https://c5s.example/cb"}}, world.Consent{})
+					if az.Err != nil || az.Params.Get("code") == "" {
+						c.Inconcl("c05 stale issuance: authorize failed: " + world.ErrDetail(az.Err))
+						continue
+					}
+					form = url.Values{"grant_type": {"authorization_code"}, "code": {az.Params.Get("code")}, "redirect_uri": {"https://c5s.example/cb"}}
+				case "device":
+					dv := w.Device(url.Values{"client_id": {"c5-stale"}, "scope": {"offline fosite"}}, a)
+					if dv.Err != nil || w.DeviceDecide(dv.S("user_code"), true, "user-dev", nil, false) != nil {
+						c.Inconcl("c05 stale issuance: device authorization failed: " + world.ErrDetail(dv.Err))
+						continue
+					}
+					form = url.Values{"grant_type": {"urn:ietf:params:oauth:grant-type:device_code"}, "device_code": {dv.S("device_code")}}
+				}
+				// the registration loses the refresh_token grant
+				if replace {
+					sp2 := sp
+					sp2.GrantTypes = removeStr(append([]string(nil), grants...), "refresh_token")
+					w.Mem.Clients["c5-stale"] = sp2.Build()
+				} else {
+					dc := world.DC(w.Client("c5-stale"))
+					dc.GrantTypes = removeStr(dc.GrantTypes, "refresh_token")
+				}
+				out := w.Token(form, a)
+				got := out.S("refresh_token") != ""
+				c.Case(fmt.Sprintf("stale-issuance origin=%s registration-replaced=%v db=%v exchanged=%v refresh_token=%v", origin, replace, db, out.Err == nil, got))
+				c.Count("c05_stale_issuance_cases", 1)
+				if got {
+					c.Violate(run.Violation{Kind: "refresh-issued-against-rule", Key: fmt.Sprintf("refresh-issued-against-rule %s after the registration lost the refresh_token grant (replaced=%v)", origin, replace), Detail: "a refresh token was issued to a client that is not registered for the refresh_token grant at the time of the exchange",
+						History: []string{fmt.Sprintf("origin %s, registration replaced=%v, copying store=%v", origin, replace, db), "exchange => " + out.Body}})
+				}
+			}
+		}
+	}
+}
+
 func C05(c *run.Ctx) {
+	c05StaleIssuance(c)
 	c.Need("refresh_ok", 1)
 	c.Need("c05_refused_after_narrowing", 1)
 	c.Need("c05_no_refresh_token_cases", 1)
